@@ -164,6 +164,16 @@ func genMsg(r *Rng, s WorldSpec, ci, j int) []byte {
 		return []byte(constLines[r.Intn(len(constLines))])
 	case "token":
 		return []byte(token)
+	case "structured":
+		level := []string{"info", "warn", "error"}[r.Intn(3)]
+		k := r.Intn(5)
+		switch r.Intn(3) {
+		case 0:
+			return []byte(fmt.Sprintf("level=%s k=%d tok=%s text=\"hello world\"", level, k, token))
+		case 1:
+			return []byte(fmt.Sprintf(`{"level":%q,"k":%d,"tok":%q,"nested":{"a":"b"}}`, level, k, token))
+		}
+		return []byte(fmt.Sprintf("%s %s request took %dms", token, level, 10*k))
 	case "raw":
 		switch x := r.Intn(100); {
 		case x < 8:
